@@ -655,7 +655,7 @@ def run(ctx):
     for r in recs[:2]:
         ctx.sample({"op": r["opname"], "meta": r["obs"]["meta"], "nparts": r["obs"]["nparts"]})
     ctx.exhaustive = False
-    ctx.extra["programs"] = {"menu_entries": len(MENU), "menu_programs": len(progs), "c36_pipelines": len(pipes), "records": len(recs)}
+    ctx.extra["program_counts"] = {"menu_entries": len(MENU), "menu_programs": len(progs), "c36_pipelines": len(pipes), "records": len(recs)}
     ctx.rule = ("cases = collections produced by recorded programs (menu entry x seeded source / partitioning, two-step programs, every "
                 "intermediate of seeded C36 pipelines); each is one observation (meta, computed, partitions); distinct by (program, step)")
     ctx.assumptions = ["TLC evaluates the invariant correctly", "the description projection maps dtypes to classes as documented",
